@@ -17,6 +17,9 @@ import (
 
 func init() {
 	register(&Workload{Prop: "C05", Variant: "lifecycle", Horizon: 10 * time.Minute, MaxSteps: 150000, MaxG: 4096, Spin: 5000, PCTLen: 3000, Body: c05Lifecycle})
+	register(&Workload{Prop: "C05", Variant: "spawn-race", Horizon: 10 * time.Minute, MaxSteps: 150000, MaxG: 4096, Spin: 5000, PCTLen: 1200, Body: c05SpawnRace})
+	// the same runs judged for C09: mail that reached a child before its (failing) OnLaunch waits for the supervisor
+	register(&Workload{Prop: "C09", Variant: "spawn-race", Horizon: 10 * time.Minute, MaxSteps: 150000, MaxG: 4096, Spin: 5000, PCTLen: 1200, Body: c05SpawnRace})
 }
 
 var restartish = []vivid.SupervisionDecision{vivid.SupervisionDecisionRestart, vivid.SupervisionDecisionRestart, vivid.SupervisionDecisionGracefulRestart,
@@ -348,4 +351,110 @@ func (w *World) specProvider(path string) bool {
 	w.mu.Lock()
 	defer w.mu.Unlock()
 	return w.provider[path]
+}
+
+// c05SpawnRace aims at the window between a child's registration and its OnLaunch: while a parent spawns a child, outside
+// senders that know the child's path tell it messages (and one of them may kill it). The child's OnLaunch fails in half
+// of the runs and its supervisor answers with a decision fixed for the run. Besides the lifecycle automaton this checks
+// what happens to the early messages: they are handled after OnLaunch, never before it; if OnLaunch failed they wait for
+// the supervisor like any queued mail - a failed actor whose restart or stop is pending handles no user message.
+func c05SpawnRace(r *R) {
+	decs := []vivid.SupervisionDecision{vivid.SupervisionDecisionRestart, vivid.SupervisionDecisionStop, vivid.SupervisionDecisionResume}
+	dec := decs[r.Choose(len(decs))]
+	w := newWorld(r, WorldOpt{})
+	if r.Failed() {
+		return
+	}
+	failLaunch := r.Chance(50)
+	nKids := 1 + r.Choose(3)
+	launchHook := func(ctx vivid.ActorContext, p *Probe) {
+		w.mu.Lock()
+		inc := w.inc[p.Path]
+		w.mu.Unlock()
+		if failLaunch && inc == 0 {
+			r.Count("fail-site:OnLaunch")
+			panic("launch failure")
+		}
+	}
+	pm := w.NewMaker("p", func(n int, ctx vivid.SupervisionContext) vivid.SupervisionDecision { return dec })
+	if _, err := w.Spawn(&Spec{Name: "p", Strategy: vivid.OneForOneStrategy(pm)}); err != nil {
+		r.Fail("C05/harness", "spawn: %v", err)
+		return
+	}
+	vsimrt.Settle()
+	r.Sample(map[string]any{"onlaunch_fails": failLaunch, "decision": fmt.Sprint(dec), "children": nKids})
+	var wg sync.WaitGroup
+	wg.Add(1)
+	vsimrt.Go("c05.spawner", func() {
+		defer wg.Done()
+		w.Tell(w.RefBy("create", nil, "/p"), w.NewCmd("spawn", 0, func(ctx vivid.ActorContext, p *Probe) {
+			for i := 0; i < nKids; i++ {
+				_, _ = w.SpawnIn(ctx, &Spec{Name: fmt.Sprintf("c%d", i), OnLaunch: launchHook})
+			}
+		}))
+	})
+	nSenders := 1 + r.Choose(2)
+	killer := r.Chance(20)
+	for si := 0; si < nSenders; si++ {
+		si := si
+		wg.Add(1)
+		vsimrt.Go("c05.early-sender", func() {
+			defer wg.Done()
+			for k := 0; k < 6; k++ {
+				ref := w.RefBy("create", nil, fmt.Sprintf("/p/c%d", k%nKids))
+				if killer && si == 0 && k == 3 {
+					w.Sys.Kill(ref, false, "early kill")
+					continue
+				}
+				w.Tell(ref, w.NewCmd(fmt.Sprintf("s%d", si), k, nil))
+				vsimrt.Yield()
+			}
+		})
+	}
+	r.Waiting("spawner and early senders")
+	wg.Wait()
+	vsimrt.Yield()
+	vsimrt.SettleFor(time.Second)
+	if r.Failed() {
+		return
+	}
+	for i := 0; i < nKids; i++ {
+		w.Tell(w.RefBy("create", nil, fmt.Sprintf("/p/c%d", i)), w.NewCmd("final", 0, nil))
+	}
+	vsimrt.SettleFor(time.Second)
+	if err := w.Stop(30 * time.Second); err != nil {
+		r.Note("Stop returned %v", err)
+	}
+	vsimrt.SettleFor(time.Second)
+	if r.Failed() {
+		return
+	}
+	if r.Prop == "C05" {
+		c05Oracle(r, w, nil)
+		if r.Failed() {
+			w.DumpNotes(400)
+		}
+		return
+	}
+	// C09: a first incarnation whose OnLaunch failed handles no user message unless the decision was Resume
+	if failLaunch && dec != vivid.SupervisionDecisionResume {
+		lives := Lives(w.Events())
+		for _, path := range sortedPaths(lives) {
+			if !strings.HasPrefix(path, "/p/c") || len(lives[path]) == 0 {
+				continue
+			}
+			first := lives[path][0].Events
+			if len(first) == 0 || first[0].Kind != "OnLaunch" {
+				continue
+			}
+			for _, e := range first[1:] {
+				if e.Kind == "Cmd" {
+					r.Count("early-message-seen")
+					r.Fail("C09/failed-launch-handled-user-message decision="+fmt.Sprint(dec), "%s: OnLaunch failed and the supervisor decided %v, yet the failed incarnation handled %s before the decision took effect (a message that arrived before OnLaunch was handled while the actor was suspended); incarnation trace: %s", path, dec, e.String(), fmtEvents(first, 10))
+					w.DumpNotes(400)
+					return
+				}
+			}
+		}
+	}
 }
